@@ -7,23 +7,7 @@ import ChibiVerif.Lemmas.C01Lemmas
 namespace ChibiVerif.C01
 open ChibiVerif.X86 ChibiVerif.Asm ChibiVerif.Spec.IntSpec ChibiVerif.Gen.CommonType ChibiVerif.C01Codegen
 
-/-- type of the node for operator `k` on operands of (converted) type `t` -/
-def nodeTy (k : NK) (t : ITy) : TyD :=
-  match opRule k with
-  | .usualArithInt => ty_int
-  | _ => descr t
-
-/-- the instructions `gen_expr` prints for `k` after `pop %rdi`, operands of type `t` -/
-def opSeq (k : NK) (t : ITy) : List Ins :=
-  match genBinop k (descr t) (nodeTy k t) with
-  | some ls => ls.flatMap Line.instrs
-  | none => []
-
-/-- the instructions for a unary operator after the operand has been evaluated -/
-def unSeq (k : NK) (t : ITy) : List Ins :=
-  match genUnop k (descr t) with
-  | some ls => ls.flatMap Line.instrs
-  | none => []
+-- `nodeTy`, `opSeq`, `unSeq` are defined in Model/C01Expr.lean
 
 /-- the distinct operator sequences -/
 inductive OpKind where
